@@ -42,6 +42,14 @@ def mk_resp(r):
     from nauyaca.protocol.response import GeminiResponse
     st, meta, body = r
     b = None if body is None else body[1]
+    # handlers commonly return the StatusCode member itself rather than its value: it IS an int and must be written as its
+    # two digits (deterministically for about half of the responses whose status has a member)
+    try:
+        from nauyaca.protocol.status import StatusCode
+        if isinstance(st, int) and not isinstance(st, bool) and len(meta) % 2 == 1:
+            st = StatusCode(st)
+    except ValueError:
+        pass
     return GeminiResponse(status=st, meta=meta, body=b)
 
 def enc_resp(r):
